@@ -47,7 +47,9 @@ FirstFail(cs, k) == IF k > Len(cs) THEN ""
 Node(i) == P(tid).nodes[i]
 IsNode(i) == i \in 1..NN(tid)
 
+\* nodes that must have their turn after node i: the readers of its output, and the nodes with an explicit rank dependency on it
 Consumers(i) == {c \in 1..NN(tid) : \E k \in 1..Len(Node(c).ins) : Node(c).ins[k] = i}
+                \cup {P(tid).rankdeps[k][1] : k \in {j \in 1..Len(P(tid).rankdeps) : P(tid).rankdeps[j][2] = i}}
 FbReaders(i) == {f \in 1..NN(tid) : Node(f).kind = "fb" /\ Node(f).bind = i}
 
 NoVal == -999999   \* "no scripted value at this time" (script values are small integers)
